@@ -197,6 +197,11 @@ def evaluate(cfg):
     spec = SEEDS[cfg["seed"]]
     cs = al.molecule_centers(len(spec), tag="c12-mol")
     shells = [al.ladder_shell(i, cs[k], t, lmax=4) for k, (i, t) in enumerate(spec)]
+    # one seed carries shells with non-default component conventions (as wrappers of other programs declare them)
+    if cfg["seed"] == 3:
+        shells = [s.with_(sph_order=["c0", "-c1", "s1"]) if (s.l == 1 and s.ctype == "spherical") else
+                  (s.with_(cart_order=[(0, 0, 2), (1, 1, 0), (2, 0, 0), (0, 2, 0), (1, 0, 1), (0, 1, 1)])
+                   if s.l == 2 else s) for s in shells]
     c0 = np.array(cs[0])
     env = {
         "points": np.array([c0 + np.array([0.0, 0.4, -0.2])] + [np.array(hvec("c12-pt%d" % i, 3, -1.5, 1.5)) for i in range(3)]),
